@@ -147,3 +147,49 @@ package dastard
 //@     invariant below: Below(ls, index, rangeindex3, cnum) && cnum == thisColFirstCnum + row
 //@     invariant next: ls.chanSepCards > 0 ==> thisColFirstCnum == Base(ls, rangeindex3) + mul(col, ColSep(ls, device))
 //@     apply frameindex(col, device.ncols, row, device.nrows) && mulstep(col, device.nrows) && frameindex(col, device.ncols, row, ColSep(ls, device)) && mulstep(col, ColSep(ls, device))
+
+// ---- Abaco numbering ----
+// Ghost state: agch[k] = number of channels of the groups before group k (prefix sums of Nchan);
+// agrp[i] / arow[i] = witnesses: the group ordinal and row that table index i belongs to.
+//@ ghost field AbacoSource.agch intmap
+//@ ghost field AbacoSource.agrp intmap
+//@ ghost field AbacoSource.arow intmap
+
+// AGroupsOK: the sorted group keys have 0..65535 channels each, pairwise disjoint channel ranges (what the
+// overlap check in Sample is there to establish), and nchan is their total.
+//@ pred AGroupsOK(as *AbacoSource) := allocated(as.groupKeysSorted) && len(as.groupKeysSorted) < 65536 && len(as.groups) == len(as.groupKeysSorted)
+//@     && as.agch[0] == 0 && as.nchan == as.agch[len(as.groupKeysSorted)]
+//@     && (forall k int :: {as.groupKeysSorted[k]} 0 <= k && k < len(as.groupKeysSorted) ==> 0 <= as.groupKeysSorted[k].Nchan && as.groupKeysSorted[k].Nchan < 65536
+//@           && as.agch[k + 1] == as.agch[k] + as.groupKeysSorted[k].Nchan)
+//@     && (forall a int, b int :: {as.agch[a], as.agch[b]} 0 <= a && a <= b && b <= len(as.groupKeysSorted) ==> as.agch[a] <= as.agch[b])
+//@     && (forall a int, b int :: {as.groupKeysSorted[a], as.groupKeysSorted[b]} 0 <= a && a < b && b < len(as.groupKeysSorted) ==>
+//@           as.groupKeysSorted[a].Firstchan + as.groupKeysSorted[a].Nchan <= as.groupKeysSorted[b].Firstchan || as.groupKeysSorted[b].Firstchan + as.groupKeysSorted[b].Nchan <= as.groupKeysSorted[a].Firstchan)
+
+//@ pred AGeo(as *AbacoSource, i int) := 0 <= as.agrp[i] && as.agrp[i] < len(as.groupKeysSorted) && 0 <= as.arow[i] && as.arow[i] < as.groupKeysSorted[as.agrp[i]].Nchan
+//@     && i == as.agch[as.agrp[i]] + as.arow[i] && as.chanNumbers[i] == as.groupKeysSorted[as.agrp[i]].Firstchan + as.arow[i]
+//@     && (as.rowColCodes[i] / 1) % 65536 == as.arow[i] && (as.rowColCodes[i] / 65536) % 65536 == as.agrp[i]
+//@     && (as.rowColCodes[i] / 4294967296) % 65536 == as.groupKeysSorted[as.agrp[i]].Nchan && (as.rowColCodes[i] / 281474976710656) % 65536 == len(as.groupKeysSorted)
+//@ pred AGeoAll(as *AbacoSource, n int) := forall i int :: {as.agrp[i]} 0 <= i && i < n ==> AGeo(as, i)
+//@ pred ATables(as *AbacoSource, n int) := len(as.chanNumbers) == n && len(as.chanNames) == n && len(as.rowColCodes) == n && len(as.subframeOffsets) == as.nchan
+//@     && (as.chanNumbers.arr == 0 || fresh(as.chanNumbers)) && (as.chanNames.arr == 0 || fresh(as.chanNames)) && (as.rowColCodes.arr == 0 || fresh(as.rowColCodes)) && fresh(as.subframeOffsets)
+//@     && allocated(as.chanNumbers) && allocated(as.chanNames) && allocated(as.rowColCodes)
+
+//@ func (*AbacoSource).PrepareChannels
+//@   props C19
+//@   requires AGroupsOK(as)
+//@   ensures noerr: result == nil
+//@   ensures tables: ATables(as, as.nchan) && as.channelsPerPixel == 1
+//@   ensures geometry: AGeoAll(as, as.nchan)
+//@   ensures distinct: forall i int, j int :: {as.chanNumbers[i], as.chanNumbers[j]} 0 <= i && i < j && j < as.nchan ==> as.chanNumbers[i] != as.chanNumbers[j]
+//@   modifies as.channelsPerPixel, as.rowColCodes, as.chanNames, as.chanNumbers, as.subframeOffsets, as.agrp, as.arow
+//@   ghost loop 2: as.agrp[len(as.chanNumbers) - 1] := rangeindex1
+//@   ghost loop 2: as.arow[len(as.chanNumbers) - 1] := row - 1
+//@   loop 1
+//@     invariant -1 <= rangeindex && rangeindex <= len(as.groupKeysSorted) - 1 && AGroupsOK(as) && unchanged(as.groupKeysSorted, as.groups, as.nchan) && as.channelsPerPixel == 1 && ncol == len(as.groupKeysSorted)
+//@     invariant tables: ATables(as, as.agch[rangeindex + 1])
+//@     invariant geo: AGeoAll(as, as.agch[rangeindex + 1])
+//@   loop 2
+//@     invariant 0 <= rangeindex1 && rangeindex1 < len(as.groupKeysSorted) && col == rangeindex1 && g.Nchan == as.groupKeysSorted[rangeindex1].Nchan && g.Firstchan == as.groupKeysSorted[rangeindex1].Firstchan
+//@     invariant 0 <= row && row <= g.Nchan && AGroupsOK(as) && unchanged(as.groupKeysSorted, as.groups, as.nchan) && as.channelsPerPixel == 1 && ncol == len(as.groupKeysSorted)
+//@     invariant tables: ATables(as, as.agch[rangeindex1] + row)
+//@     invariant geo: AGeoAll(as, as.agch[rangeindex1] + row)
